@@ -201,3 +201,5 @@ PLANS["C16"] = Plan(
                 "guard); memory contracts of the accessors (.d/.ndview/ndarray_view views; .v/.value/"
                 "to_ndarray copies) and of the converting routes (fresh memory, input untouched)",
 )
+
+PLANS["C16"].bounded = ("bounded/c16.py", [], [])
